@@ -67,15 +67,17 @@ SignedInt(s, i) ==
        k == DigitsEnd(s, j)
    IN IF k = j THEN [ok |-> FALSE, val |-> 0, next |-> i]
       ELSE [ok |-> TRUE, val |-> (IF sg /\ s[i] = CHMINUS THEN -1 ELSE 1) * DecVal(SubSeq(s, j, k - 1)), next |-> k]
-\* (s|u|q|uq|qu)(\d+)(\.[+-]?\d+)?   matched at the start of the case-folded string (re.match: prefix match)
+\* (s|u|q|uq|qu)([+-]?\d+)(\.[+-]?\d+)?   matched at the start of the case-folded string (re.match: prefix match)
+\* (the integer part m may be negative - an oversized fraction length renders as Q-3.11; before repair D29 the grammar had (\d+) there)
 QMatch(s) ==
    LET p2 == IF Len(s) >= 2 THEN <<s[1], s[2]>> ELSE <<>>
        plen == IF p2 = <<117, 113>> \/ p2 = <<113, 117>> THEN 2
                ELSE IF Len(s) >= 1 /\ s[1] \in {115, 117, 113} THEN 1 ELSE 0
-       k == DigitsEnd(s, plen + 1)
-   IN IF plen = 0 \/ k = plen + 1 THEN ERR
+       mi == SignedInt(s, plen + 1)
+       k == mi.next
+   IN IF plen = 0 \/ ~mi.ok THEN ERR
       ELSE LET signed == (plen = 1 /\ s[1] \in {115, 113})        \* mo.group(1) in 'sq'
-               m == DecVal(SubSeq(s, plen + 1, k - 1))
+               m == mi.val
                fr == IF k <= Len(s) /\ s[k] = CHDOT THEN SignedInt(s, k + 1) ELSE [ok |-> FALSE, val |-> 0, next |-> k]
                n == IF fr.ok THEN fr.val ELSE 0
            IN [s |-> signed, w |-> m + n, f |-> n, cplx |-> FALSE]
